@@ -50,6 +50,8 @@ std::vector<long> enter_stack;        // ENTER times of the callbacks in progres
 int router_write_call[64];           // per thread: >0 while inside router.subscribe / unsubscribe (harness flag)
 std::vector<int> *delivery_log[64];  // per thread: the notify in progress collects the observers it reaches
 bool mutating_during_callback = false;
+int write_user_code = 0;            // threads currently inside user code that tulz runs under the write lock
+bool writes_lingered = false;
 
 
 struct Sentinel {
@@ -62,6 +64,15 @@ struct Sentinel {
         int tid = vsched::self();
         if (tid >= 0 && router_write_call[tid] > 0 && in_callback > 0)
             violation("EXCLUSION", "the callable of observer %d was %s inside a subscribe/unsubscribe call of thread t%d while a callback of another operation was still running (a delivery was in progress)", id, what, tid);
+        // write operations exclude each other too: this user code runs under the write lock and lingers there for one scheduling
+        // point, so that another thread's subscribe/unsubscribe gets the chance to (wrongly) run its own at the same time
+        if (tid >= 0 && router_write_call[tid] > 0) {
+            if (++write_user_code > 1)
+                violation("EXCLUSION", "the callable of observer %d was %s inside a subscribe/unsubscribe call of thread t%d while another thread's subscribe/unsubscribe was executing user code under the write lock: two write operations overlap", id, what, tid);
+            if (write_user_code == 1 && vsched::nthreads() > 2) writes_lingered = true;
+            vsched::yield();
+            --write_user_code;
+        }
     }
 };
 
